@@ -220,6 +220,26 @@ def run(ctx):
         c.ob("R3", ok, pe, f"probe-interprets:{b}", f"the probe interprets {b}" if ok else
              f"the pure API records {b} actions but does not interpret them ({why}): initial_transition/transition diverge from both "
              f"interpreters on machines that use it", pe.node)
+    # ---- R6 the probe contains failing action callbacks like the engines do ------------------------
+    from sa.contain import containment
+    from .roles import view_funcs
+    puniv = view_funcs(ctx, "_Probe")
+    n6 = 0
+    for f in (p.method("_Probe", "_apply_assign"), p.method("_Probe", "_resolve_params")):
+        for s_ in res.callsites(f, "_Probe"):
+            if s_.kind != "dynamic":
+                continue
+            outs = containment(res, "_Probe", f, s_.call, puniv, depth=6, stop_at={pe.qualname})
+            for o in outs:
+                if pe.short not in o.chain:
+                    continue            # reached through guards / other paths: not the probe's action interpreter
+                n6 += 1
+                ok = o.kind == "contained"
+                c.ob("R6", ok, f, f"probe-contains:{s_.callee_text}@{f.name}",
+                     "a raising callback is contained as in the interpreters" if ok else
+                     f"an exception from {s_.callee_text}() (assign callback / params) escapes {' <- '.join(o.chain)}: both interpreters contain it "
+                     f"(the action list is cut short, the transition completes) while initial_transition()/transition() raise", s_.call, path=list(o.chain))
+    c.floor("R6", "user callbacks under the probe's action interpreter", n6, 2)
     # ---- R4 PureSnapshot captures every behaviour-relevant attribute -----------------------------
     ps = p.cls("PureSnapshot")
     slots = {const_str(x) for x in ast.walk(ps.class_attrs.get("__slots__", ast.Tuple(elts=[]))) if const_str(x)}
